@@ -110,8 +110,67 @@ def run_one(cfg):
     return None
 
 
+def reused_object():
+    """one Sampler object that has completed a run is then used for the checkpoints of other chains (load_state, sample, posterior,
+    run(resume_state_path)): every record in the flat history, in the current state and in posterior() is still a whole record of
+    the history now stored"""
+    import tempfile, shutil, os, re
+    base = tempfile.mkdtemp(prefix="c07r_")
+    cwd = os.getcwd()
+    os.chdir(base)
+    try:
+        def mk(seed):
+            return Sampler(pt, ll_blob, blobs_dtype="float", n_dim=2, n_particles=24, random_state=seed, ess_ratio=1.5,
+                           output_dir=tempfile.mkdtemp(prefix=f"s{seed}_", dir=base))
+        cps = {}
+        for seed in (5, 6):
+            s = mk(seed)
+            s.run(n_total=120, progress=False, save_every=1)
+            d = str(s._core.config.output_dir)
+            cps[seed] = {int(re.match(r".*_(\d+)\.state$", f).group(1)): os.path.join(d, f) for f in os.listdir(d) if re.match(r".*_(\d+)\.state$", f)}
+        reader = mk(7)
+        reader.run(n_total=72, progress=False)
+        T = reader.state.get_history_length()
+        for seed in (5, 6, 5):
+            ks = sorted(cps[seed])
+            for k in sorted({ks[-1], min(ks, key=lambda q: abs(q - T)), min(ks, key=lambda q: abs(q - (T - 1)))}):
+                reader.load_state(cps[seed][k])
+                H = reader.state
+                for what in ("after load_state", "after load_state + sample()"):
+                    tag = f"sampler reused for chain {seed}, checkpoint {k}, {what}: flat history"
+                    r = check_rows(tag, H.get_history("u", flat=True), H.get_history("x", flat=True), H.get_history("logl", flat=True),
+                                   H.get_history("blobs", flat=True), None, None)
+                    if r:
+                        return r
+                    for key in ("u", "x", "logl", "blobs"):
+                        per_it = np.concatenate([np.asarray(H.get_history(key, index=t)) for t in range(H.get_history_length())])
+                        if not np.array_equal(per_it, np.asarray(H.get_history(key, flat=True))):
+                            return f"{tag}: the flattened {key!r} history is not the concatenation of the stored iterations (rows of a previously held history survive)"
+                    out = reader.posterior(return_blobs=True, trim_importance_weights=False)
+                    x, logl, b = out[0], out[2], out[3]
+                    if not (np.array_equal(np.array([ll_scalar(xi) for xi in x]), logl)
+                            and np.array_equal(np.array([ll_blob(xi)[1] for xi in x]), np.asarray(b, float).reshape(len(x)))):
+                        return f"sampler reused for chain {seed}, checkpoint {k}, {what}: posterior() rows are not whole records"
+                    if what == "after load_state":
+                        st = reader.sample()
+                        r = check_rows(f"sampler reused for chain {seed}, checkpoint {k}: state after sample()", st["u"], st["x"], st["logl"], st["blobs"], None, None)
+                        if r:
+                            return r
+    finally:
+        os.chdir(cwd)
+        shutil.rmtree(base, True)
+    return None
+
+
 def main():
     p = json.load(open(sys.argv[1]))
+    try:
+        r = reused_object()
+    except Exception as e:
+        r = f"reused sampler object: {type(e).__name__}: {e}"
+    if r:
+        print(json.dumps({"reproduced": True, "detail": r, "input": {"case": "reused-object"}, "tried": 1}))
+        return
     cfgs = []
     for kernel, resample, clustering, like, bc, vv in itertools.product(("tpcn", "rwm"), ("mult", "syst"), (True, False),
                                                                         ("scalar", "blob", "vec"),
